@@ -47,7 +47,58 @@ def shards(tier, seed):
     out.append(("rawlines",))
     out.append(("reuse",))
     out += [("expiry", z) for z in ZONES]
+    out.append(("coldstart",))
     return out
+
+
+COLD_VALUES = ["x y;z", "é,ü", 'q"\\', "plain"]
+
+
+def run_cold_pair(prefix, values):
+    """The first two cookies a process ever renders, by two threads at once: baize/datastructures.py is loaded anew before every
+    execution, so whatever the module prepares on first use is prepared under the scheduler."""
+    import importlib
+    import os
+    from ..core import vthreads as VT
+    from ..core.runner import REPO
+    import baize.datastructures as DS
+    DS = importlib.reload(DS)
+    jobs = [lambda i=i: str(DS.Cookie("k%d" % i, values[i])) for i in (0, 1)]
+    return VT.run_thread_pair(prefix, jobs, [os.path.join(REPO, "baize", "datastructures.py")])
+
+
+def coldstart(r, tier):
+    from ..core.explore import dfs
+    for a in COLD_VALUES:
+        for b in COLD_VALUES:
+            values = [a, b]
+
+            def on_exec(x):
+                r.count("evaluations")
+                r.count("traces")
+                w = {"kind": "coldstart", "values": values, "schedule": list(x.choices)}
+                if x.obs["stuck"]:
+                    r.violation("coldstart:stuck", w, f"the first two cookies of a process ({values!r}) rendered by two threads at once: {x.obs['stuck']}")
+                    return
+                for i, line in enumerate(x.obs["results"]):
+                    if not isinstance(line, str):
+                        r.violation("coldstart:raised", w, f"the first two cookies of a process ({values!r}) rendered by two threads at once, schedule {x.obs['trace'][-10:]}: cookie {i} gave {line!r:.200}")
+                        continue
+                    pair = line.split("; ")[0]
+                    got = None
+                    if line.isascii():
+                        got = read_cookies("wsgi", "x=1; " + pair + "; y=2").get("k%d" % i)
+                    if got != values[i]:
+                        r.violation("coldstart:value-changed", w, f"the first two cookies of a process ({values!r}) rendered by two threads at once, schedule {x.obs['trace'][-10:]}: cookie {i} was written as {line!r:.120} and reads back as {got!r}")
+            dfs(lambda prefix: run_cold_pair(prefix, values), on_exec, bound=1 if tier == "quick" else 2)
+            r.count("distinct_nontrivial")
+    r.sample({"coldstart": COLD_VALUES, "module_reloaded_per_execution": "baize/datastructures.py", "preemption_bound": 1 if tier == "quick" else 2})
+
+
+def run_shard_fresh(desc, tier):
+    r = R()
+    coldstart(r, tier)
+    return r
 
 
 def emit_cookie_line(iface, setter, created=None, through=None):
@@ -408,6 +459,10 @@ def expiry(r, zone):
 
 def run_shard(desc, tier):
     r = R()
+    if desc[0] == "coldstart":
+        # (an interpreter of its own: a re-loaded module leaves two generations of its classes behind)
+        from ..core import fresh
+        return fresh.call(__name__, ("coldstart-run",), tier)
     if desc[0] == "one":
         name = NAMES[desc[1]]
         for cp in range(256):
@@ -488,6 +543,10 @@ def replay(w):
     r = R()
     if w["kind"] == "roundtrip":
         roundtrip(r, w["name"], w["value"], "replay", full=w.get("full", False))
+    elif w["kind"] == "coldstart":
+        from ..core import fresh
+        rr = fresh.call(__name__, ("coldstart-run",), "quick")
+        r.viol = {s: v for s, v in rr.viol.items() if v[1].get("values") == w["values"]} or rr.viol
     elif w["kind"] == "renderpair":
         from baize.datastructures import Cookie
         specs = [RENDER_SPECS[k] for k in w["spec_index"]] if "spec_index" in w else [(tuple(a), kw) for a, kw in w["specs"]]
